@@ -30,6 +30,9 @@ CHECKS = {
  "C12": dict(tech="static analysis: lockset over struct fields, must-pass validity/renewal gates, who-may-store rule for key identifiers, provenance of the validity window on SSA",
    text="Structural necessary conditions decided exactly for their clause: every accessor of keys/currentID/generatedAt holds p.mu (or is generateNext called only under the lock / the constructor on a fresh object); ids only by +1 behind the overflow panic, one insert under the new id; Get returns a key only through map hit and IsValidAt(time.Now()); IsValidAt == !Before(NotBefore)&&!After(NotAfter); Current returns without generating only through valid-now and generated-within-24h and returns keys[currentID] read afterwards; generateNext stamps generatedAt=NotBefore=time.Now(), NotAfter=+72h, retires only expired keys; constants 24h/72h. The day arithmetic and wall-clock steps are not decided.",
    ref="DESIGN.md §4 C12"),
+ "C10": dict(tech="static analysis: associated-data coverage rules (seal/open argument provenance, cursor arithmetic, stop-at-authenticator path query), key-direction table, must-pass gates in both listeners, seal/open sibling agreement, constant-argument rule for the TLS exporter on SSA",
+   text="Structural necessary conditions decided exactly for their clause: pack seals over buf[:pos] before writing its header at pos, DecodePacket records that position and reads no extension after the authenticator, authenticate opens the packet's own nonce/ciphertext over b[:Auth.pos]; request/response keys per direction on client, server and key-exchange server, exporter contexts fresh constants ending 0x00/0x01; cookie keys, new cookies and the response exist only behind ProcessRequest==nil on the cookie opened under provider.Get(cookie.ID); all AEADs AES-CMAC-SIV/16, cookie AD nil on both sides, Decrypt returns only via Open==nil and Decode==nil. AEAD security is trusted.",
+   ref="DESIGN.md §4 C10"),
 }
 NA = {
  "C04": "all clauses are value arithmetic over time.Time/uint32 (truncation direction, era unfolding, order preservation); no structural or finite-domain clause; matching the constants would be a frozen-fragment proxy",
